@@ -833,7 +833,7 @@ class NestedCriterion(Criterion):
         """
         self.left = self.left.replace_table(current_table, new_table)
         self.right = self.right.replace_table(current_table, new_table)
-        self.nested = self.right.replace_table(current_table, new_table)
+        self.nested = self.nested.replace_table(current_table, new_table)
 
     def get_sql(self, ctx: SqlContext) -> str:
         sql = "{left}{comparator}{right}{nested_comparator}{nested}".format(
